@@ -67,10 +67,16 @@ def behaviour(l, inputs=INPUTS):
 
 class Env:
     """one temp dir: grammar file location (for relative imports), cache path, load_grammar call counter"""
-    def __init__(self, ctx):
+    def __init__(self, ctx, dir=None):
         import lark.lark as lk
         self.ctx = ctx
-        self.dir = tempfile.mkdtemp(prefix='vlark-c12-')
+        if dir and dir.startswith(tempfile.gettempdir()) and not os.path.exists(dir):
+            # replay: the cache file records the absolute paths of the imported files, so a damaged file is only "the
+            # same file" if the directory is called what it was called
+            os.makedirs(dir)
+            self.dir = dir
+        else:
+            self.dir = tempfile.mkdtemp(prefix='vlark-c12-')
         self.cache = os.path.join(self.dir, 'grammar.cache')
         self.lib = os.path.join(self.dir, 'lib.lark')
         self.main = os.path.join(self.dir, 'main.lark')
@@ -215,6 +221,7 @@ def judge(ctx, env, g, opts, libtext, case, fault_kind, nontriv, expect_served=N
     """construct with the cache file in its current state; compare with the uncached build; then check
     that the file left behind is valid (next construction cache-served and equal)."""
     exp = env.expected(g, opts, libtext, extra_key, extra)
+    case = dict(case, env_dir=env.dir)
     isolated = fault_kind is not None and (fault_kind.startswith('bitflip') or fault_kind == 'foreign-payload')
     if isolated:
         got = env.construct_isolated(g, opts, extra=extra)
@@ -624,7 +631,7 @@ def run_batch(ctx):
 
 
 def replay(ctx, case):
-    env = Env(ctx)
+    env = Env(ctx, case.get('env_dir'))
     rng = ctx.rng
     try:
         if 'auto_named' in case:
